@@ -1,4 +1,6 @@
 ENGINES = [
+    {"name": "schedmc", "path": "mc/checks/c19.py", "serves_properties": ["C19"],
+     "kind_free_text": "stateless schedule enumeration on the real library under an LD_PRELOAD scheduler shim (native/c19_shim.c): the integration thread is stopped at every entry/exit event of its loop and the server thread runs against it; plus exhaustive audit of the library's writable globals and all step interleavings of two simulations"},
     {"name": "crashmc", "path": "mc/crashmc.py", "serves_properties": ["C07"],
      "kind_free_text": "crash-point enumeration over the syscall log (strace) of the real writer: all byte prefixes of the write sequence, recovery and restart executed on the real library"},
     {"name": "gridmc", "path": "mc/checks", "serves_properties": ["C01", "C02", "C03", "C10", "C11", "C12", "C16", "C18", "C20"],
@@ -10,6 +12,14 @@ NOTES = ("All checks explore the real implementation rebuilt from /repo's workin
          "so traces_validated_against_impl equals the number of executed transitions. known_findings.json lists repaired defects (fixed:) and recorded ones.")
 NOT_APPLICABLE = {}
 CHECKS = {
+    "C19": {
+        "engine": "schedmc", "category": "exploration",
+        "technique": "exhaustive enumeration of schedules at call granularity on the real code: one controlled execution per (configuration, event index of the integration thread, client request), the web-server thread running while the integration thread is held at that event; all interleavings of the steps of two simulations; audit of every writable global of the library; ThreadSanitizer and bit comparison on free-running threads as the separate race pass",
+        "text": "S: 14 integrator configurations (WHFast safe/unsafe/keep_unsynchronized/corrector/DH, SABA, MERCURIUS, IAS15, LEAPFROG, EOS, TRACE, BS, JANUS; exact_finish_time 1 and 0) x every event of a 4.5-step integrate() (38-322 events: entry/exit of reb_check_exit, reb_simulation_synchronize, reb_simulation_step, Kepler and COM sub-steps, lock/unlock of the server mutex) x GET /simulation, plus 7 malformed/other requests at every 7th (thorough: 2nd) event: 1.9k (thorough 6k) schedules. If the server has to wait for the mutex the integration thread is advanced event by event until the response is complete. "
+                "Oracles: integrate() returns without error, final state bitwise equal to the run without a server, the response is a loadable snapshot at the time of a step boundary, and continuing it to the end gives bitwise the state obtained from a copy taken at that boundary. "
+                "T: (1) every byte of librebound's .data/.bss before and after a workload over 13 integrator settings incl. copy/save/load/MEGNO/collisions (only reb_sigint may change); (2) all C(2k,k) interleavings of k=3 (thorough 4) steps of simulations A and B for all 169 ordered pairs of settings vs A and B alone; (3) 16 workloads (create, integrate, outputs in deferred-synchronisation modes, copy, save, load, free) in 16 concurrent threads: state hashes vs sequential run (4-20 repetitions) and ThreadSanitizer reports (only the reb_sigint flag allowed).",
+        "note": "Granularity of S is the function-call events listed; within one such interval the server's critical section runs atomically with respect to the stopped integration thread. One client at a time (the server is single-threaded). Instruction-level races between independent simulations are looked for by ThreadSanitizer's happens-before analysis, which is a detector and not an enumeration. whfast keep_unsynchronized with exact_finish_time=1 is excluded here (recorded C08 finding).",
+    },
     "C16": {
         "engine": "gridmc", "category": "exploration",
         "technique": "exhaustive enumeration of (A) all 65 derivative constructors on an element lattice against 40-digit numerical differentiation of an independent element map, (B) the lattice system x integrator setting x order x varied particle x parameter (pair) x test-particle flag x horizon, each variational run compared with Richardson-extrapolated finite differences of shadow runs, (C) rescaling cases, (D) MEGNO runs",
